@@ -367,6 +367,31 @@ def authorityValidateF (ints roots : List Cert) (n : Names) : Verdict :=
   | none => .allow
   | some ch => validateF (NewF (ch.map (·.nc))) n
 
+/-! ### what the pre-signing gate sees of the template (authority/tls.go `signX509` +
+    x509util `Certificate.GetCertificate`)
+
+  `leaf := crt.GetCertificate()` copies the DNS names, IP addresses, e-mail addresses and URIs
+  into the `x509.Certificate` fields only when the x509util certificate has no subjectAltName
+  among its extensions. With a SAN of a type the standard library does not support
+  (permanentIdentifier, hardwareModuleName, directoryName, …) x509util builds that extension
+  itself, the fields stay empty, and the gate (name constraints *and* policy) looks at no name,
+  while the extension — with all the names — is what gets signed. -/
+
+inductive SanCarrier where
+  | fields      -- only DNS / IP / e-mail / URI SANs: the name fields are filled
+  | extension   -- an extended SAN is present (or a raw subjectAltName extension): fields empty
+  deriving Repr, DecidableEq
+
+/-- the names the gate is shown -/
+def seenNames (c : SanCarrier) (n : Names) : Names :=
+  match c with
+  | .fields => n
+  | .extension => {}
+
+/-- `Authority.Sign`'s decision on a template that carries the names `n` -/
+def signVerdict (c : SanCarrier) (ints roots : List Cert) (n : Names) : Verdict :=
+  authorityValidateF ints roots (seenNames c n)
+
 /-! ### root bundle (authority/options.go `readCertificateBundle`, used by `WithX509RootBundle`) -/
 
 /-- one PEM block of a root bundle -/
@@ -513,6 +538,18 @@ def frontEnds : List String :=
 /-- every function that calls `x509util.CreateCertificate` / `x509.CreateCertificate` -/
 def certCreators : List String :=
   [ "cas/cloudcas/cloudcas.go:signIntermediateCA", "cas/softcas/softcas.go:createCertificate" ]
+
+/-- the statements of `authority.init` that assemble the chain handed to `constraints.New`, as
+    printed from the syntax tree (blanks inside a statement written `_`): all intermediates, then
+    every configured root with the last intermediate's issuer name whose key verifies its
+    signature. This is the shape `chainForSig` models; a change of it breaks the `paths` stage. -/
+def rootSelShape : List String :=
+  [ "constraintCerts_:=_make([]*x509.Certificate,_0,_size+1)",
+    "constraintCerts_=_append(constraintCerts,_a.intermediateX509Certs...)",
+    "range a.rootX509Certs",
+    "if bytes.Equal(last.RawIssuer,_root.RawSubject)_&&_last.CheckSignatureFrom(root)_==_nil",
+    "constraintCerts_=_append(constraintCerts,_root)",
+    "a.constraintsEngine_=_constraints.New(constraintCerts...)" ]
 
 def Step.isCas : Step → Bool
   | .casCreate => true
